@@ -59,10 +59,13 @@ var pureLib = map[string]string{
 	"(*sync.Mutex).Lock": "", "(*sync.Mutex).Unlock": "", "(*sync.RWMutex).Lock": "", "(*sync.RWMutex).Unlock": "", "(*sync.RWMutex).RLock": "", "(*sync.RWMutex).RUnlock": "",
 	"(*sync.WaitGroup).Add": "", "(*sync.WaitGroup).Done": "", "(*sync.WaitGroup).Wait": "",
 	"time.Now": "", "time.Since": "", "(time.Time).Sub": "", "(time.Time).Add": "", "time.Sleep": "",
-	"context.WithCancel": "", "context.WithValue": "", "context.Background": "",
+	"context.WithCancel": "", "context.WithValue": "", "context.Background": "", "(*net/http.Request).Context": "",
 	"sort.Strings": "havoc:string", "math.MaxInt64": "",
 	"github.com/samsarahq/go/oops.Wrapf": "nonnil-if-arg0", "github.com/samsarahq/go/oops.Errorf": "nonnil",
 	"log.Println": "", "log.Printf": "",
+	// writes confined to the buffer object itself, whose content no clause reads
+	"(*bytes.Buffer).WriteString": "", "(*bytes.Buffer).WriteByte": "", "(*bytes.Buffer).String": "", "(*bytes.Buffer).Len": "",
+	"(*strings.Builder).WriteString": "", "(*strings.Builder).WriteByte": "", "(*strings.Builder).String": "", "(*strings.Builder).Len": "",
 }
 
 // pure interface methods (by interface method full name)
@@ -377,6 +380,7 @@ func (vc *FnVC) siteAsserts(name string, ord int, pre *Mem, args []TV, pos token
 		}
 		j++
 		vc.matchedSites["assert "+ca.Callee] = true
+		vc.matchedSites[fmt.Sprintf("assert %s#%d", ca.Callee, ca.Ordinal)] = true
 		env := vc.newEnv(pre, vc.mem0)
 		env.resolve = vc.blockResolver(vc.curBlock, pre)
 		for i, a := range args {
@@ -729,6 +733,7 @@ func (vc *FnVC) applyCallGhostsX(name string, args, results []TV, m *Mem, extra 
 			continue
 		}
 		vc.matchedSites["ghost "+g.Callee] = true
+		vc.matchedSites[fmt.Sprintf("ghost %s#%d", g.Callee, g.Ordinal)] = true
 		env := vc.newEnv(m, vc.mem0)
 		env.resolve = vc.blockResolver(vc.curBlock, m)
 		for i, a := range args {
